@@ -290,3 +290,17 @@ M('C09', 'c09-name-from-signature', [(EXT, "    message_name = _fast_access(clos
 M('C09', 'c09-args-reversed', [(EXT, "return wl.Message(time_now(), object, is_sending, message_name, tuple(args))", "return wl.Message(time_now(), object, is_sending, message_name, tuple(reversed(args)))")], 'C09.4')
 M('C09', 'c09-sender-id-from-target', [(EXT, "    object_id = int(_fast_access(closure, 'wl_closure.sender_id'))\n    object = wl.UnresolvedObject(object_id, None)", "    object_id = int(_fast_access(closure, 'wl_closure.opcode'))\n    object = wl.UnresolvedObject(object_id, None)")], 'C09.4')
 V('C09', 'c09v-cursor-renamed', [(EXT, "    i = 0\n    for c in signiture:", "    i = 0\n    assert i == 0\n    for c in signiture:")])
+
+# ---- C15 -----------------------------------------------------------------------------------------
+M('C15', 'c15-unguarded-del-again', [(PLG, "        if connection_id in self.connections:\n            del self.connections[connection_id]\n", "        del self.connections[connection_id]\n")], 'C15')
+M('C15', 'c15-no-open-on-first-sight', [(PLG, "        if not connection_id in self.connections:\n            is_server = None", "        if False:\n            is_server = None")], 'C15')
+M('C15', 'c15-close-keeps-address', [(PLG, "        if connection_id in self.connections:\n            del self.connections[connection_id]\n", "")], 'C15.2')
+M('C15', 'c15-close-not-forwarded-for-unknown', [(PLG, "        if connection_id in self.connections:\n            del self.connections[connection_id]\n        self.connection_id_sink.close_connection(time_now(), connection_id)", "        if connection_id in self.connections:\n            del self.connections[connection_id]\n            self.connection_id_sink.close_connection(time_now(), connection_id)")], 'C15.2')
+M('C15', 'c15-thread-mismatch-drops', [(PLG, "                    ' instead of connection\\'s main thread ' + str(connection_thread_num))\n", "                    ' instead of connection\\'s main thread ' + str(connection_thread_num))\n                return\n")], 'C15.3')
+M('C15', 'c15-thread-mismatch-raises', [(PLG, "                self.out.warn(\n                    'Got message '", "                raise RuntimeError(\n                    'Got message '")], 'C15')
+M('C15', 'c15-identity-includes-thread', [(EXT, "    return 'gdb_conn:' + hex(int(connection))", "    return 'gdb_conn:' + hex(int(connection)) + ':' + str(gdb.selected_thread().global_num)")], 'C15.2')
+M('C15', 'c15-open-wrong-id', [(PLG, "            self.open_connection(connection_id, is_server)", "            self.open_connection(str(message.obj.id), is_server)")], 'C15')
+M('C15', 'c15-manager-close-unguarded', [(CMG, "        connection = self.open_connections.get(connection_id)\n        if connection:\n            del self.open_connections[connection_id]", "        connection = self.open_connections.get(connection_id)\n        del self.open_connections[connection_id]\n        if connection:")], 'C15.1')
+M('C15', 'c15-destroy-closes-all', [(PLG, "        self.plugin.close_connection(connection_id)\n        return False", "        for cid in list(self.plugin.connections):\n            self.plugin.close_connection(cid)\n        return False")], 'C15.2')
+V('C15', 'c15v-pop-default', [(PLG, "        if connection_id in self.connections:\n            del self.connections[connection_id]\n", "        self.connections.pop(connection_id, None)\n")])
+V('C15', 'c15v-try-except', [(PLG, "        if connection_id in self.connections:\n            del self.connections[connection_id]\n", "        try:\n            del self.connections[connection_id]\n        except KeyError:\n            pass\n")])
